@@ -197,4 +197,76 @@ theorem unified_ne_generative {s s1 s3 : State} (w : WF s) {op : Op} (hg : op.ge
   rw [ho, hou] at o
   cases o
 
+/-! ## Look-ups by name and type are stable -/
+
+/-- the first element satisfying a predicate stays the first one when the list is extended at its end and the predicate is
+    unchanged on the old elements -/
+theorem find?_append_congr {α : Type} (l l' : List α) (p q : α → Bool) {d : α} (hpq : ∀ x ∈ l, q x = p x)
+    (h : l.find? p = some d) : (l ++ l').find? q = some d := by
+  induction l with
+  | nil => simp at h
+  | cons a l ih =>
+    have ha : q a = p a := hpq a (by simp)
+    rw [List.cons_append, List.find?_cons, ha]
+    rw [List.find?_cons] at h
+    cases hp : p a with
+    | true => rw [hp] at h; exact h
+    | false =>
+      rw [hp] at h
+      exact ih (fun x hx => hpq x (by simp [hx])) h
+
+theorem find?_mem' {α : Type} {l : List α} {p : α → Bool} {d : α} (h : l.find? p = some d) : d ∈ l := by
+  induction l with
+  | nil => simp at h
+  | cons a l ih =>
+    rw [List.find?_cons] at h
+    cases hp : p a with
+    | true => rw [hp] at h; cases h; simp
+    | false => rw [hp] at h; simp [ih h]
+
+/-- Along any extension of the store (`Ext`: what every chain of guarded primitives is), a look-up that answered a
+    declaration keeps answering that declaration. -/
+theorem Ext.lookupIn {M L : List Id} {s s' : State} (e : Ext M L s s') (w : WF s) {sc n t d : Id} (hsc : sc < s.size)
+    (h : lookupIn s sc n t = some (some d)) : lookupIn s' sc n t = some (some d) := by
+  have r := e.recs sc hsc
+  obtain ⟨tl, htl⟩ := r.mems
+  have hold : ∀ x ∈ (s.get sc).mems, x < s.size := fun x hx => w.recs sc hsc x (mems_mem_ids hx)
+  unfold Ipr.Stable.lookupIn at h ⊢
+  rw [← r.tag]
+  split at h
+  · rename_i htag
+    rw [if_pos htag]
+    simp only [Option.some.injEq] at h ⊢
+    unfold lookupHom at h ⊢
+    split at h
+    · rename_i d0 hf
+      have hd0 : d0 ∈ (s.get sc).mems := find?_mem' hf
+      have hf' : (s'.get sc).mems.find? (fun x => (s'.get x).args.head? == some (.node n)) = some d0 := by
+        rw [← htl]
+        exact find?_append_congr _ _ _ _ (fun x hx => by rw [(e.recs x (hold x hx)).args]) hf
+      rw [hf']
+      dsimp only
+      rw [← (e.recs d0 (hold d0 hd0)).typ]
+      exact h
+    · cases h
+  · split at h
+    · rename_i hn htag
+      rw [if_neg hn, if_pos htag]
+      simp only [Option.some.injEq] at h ⊢
+      unfold masterOf at h ⊢
+      rw [← htl]
+      exact find?_append_congr _ _ _ _ (fun x hx => by rw [(e.recs x (hold x hx)).args]) h
+    · cases h
+
+theorem lookupIn_step {s : State} (w : WF s) (op : Op) {sc n t d : Id} (hsc : sc < s.size)
+    (h : lookupIn s sc n t = some (some d)) : lookupIn (step s op).1 sc n t = some (some d) :=
+  (step_chain s op).ext.lookupIn w hsc h
+
+theorem lookupIn_runFrom {s : State} (w : WF s) (ops : List Op) {sc n t d : Id} (hsc : sc < s.size)
+    (h : lookupIn s sc n t = some (some d)) : lookupIn (runFrom s ops) sc n t = some (some d) := by
+  induction ops generalizing s with
+  | nil => exact h
+  | cons op ops ih =>
+    exact ih (w.step op) (Nat.lt_of_lt_of_le hsc (size_le_step s op)) (lookupIn_step w op hsc h)
+
 end Ipr.Stable
